@@ -4,7 +4,7 @@ import random
 from .. import astx
 from ..history import History
 
-N_CASES = {"quick": 25, "thorough": 30000}
+N_CASES = {"quick": 80, "thorough": 30000}
 TIME_BUDGET = {"quick": 60, "thorough": 270}
 META = {
     "rule": "random histories of 10-60 steps: QMetaData calls (keys from a pool of 4, values from a pool of 5 incl. containers; new keys, "
